@@ -68,6 +68,11 @@ CHECKS = {
          "Every presence pattern of optional members of the six message types is serialised and inspected as a generic CBOR value against the specification's key numbering typed into the harness, then round-tripped; every unassigned integer key 0..255 and unknown text keys are injected (all positions), each required member removed, each member duplicated, options omitted/emptied; every status byte is converted both ways and injected as a store failure under Client::authenticate.",
          "Debug-string equality of messages; keys above 255 and negative keys are outside the property.",
          "DESIGN.md §2 C13"),
+ "C14": ("exploration",
+         "bounded-exhaustive enumeration of presence patterns x presentation changes of the option documents on the real serde implementations (differential against the canonical presentation), all short byte strings for base64url, emitted credentials re-parsed, client-data member order",
+         "All 256 presence patterns of optional members of both option documents are combined with every single presentation change (binary members in five spellings, numbers in four, unknown members at every position of every object, unknown enumeration strings, unknown entries at every index of every lenient list incl. pubKeyCredParams with unknown alg in every member order); thorough adds all pairs. base64url identity is exhaustive to length 2/3; emitted credentials of 72 ceremonies are re-parsed; client-data member order is checked for all orders of up to three unknown members with three extra-data types.",
+         "serde_json trusted as generic parser; entries of a different JSON shape and unknown credential types are outside the alphabet.",
+         "DESIGN.md §2 C14"),
 }
 
 NOT_BUILT = "check not built yet in this revision of the harness (planned per DESIGN.md §2); no claim is made"
